@@ -86,16 +86,17 @@ func genKeys(rng *vrt.Rand, n int) [][]byte {
 
 // Swarm is the per-run draw of workload parameters.
 type Swarm struct {
-	Keys    [][]byte
-	W       map[string]int // op weights
-	ValW    []int          // value-length class weights
-	Steps   int
-	Small   bool
-	tag     uint32
-	ovh     int // learned per-record overhead in bytes
-	lastSz  int64
-	lastAct string
-	Bulk    int // when > 0 the run begins by loading this many keys (index structures beyond their first node, hint files beyond one block)
+	Keys     [][]byte
+	W        map[string]int // op weights
+	ValW     []int          // value-length class weights
+	Steps    int
+	Small    bool
+	tag      uint32
+	ovh      int // learned per-record overhead in bytes
+	lastSz   int64
+	lastAct  string
+	ZeroTail bool // values may end in zero bytes (the run is standard I/O throughout)
+	Bulk     int  // when > 0 the run begins by loading this many keys (index structures beyond their first node, hint files beyond one block)
 }
 
 var valClasses = []string{"empty", "tiny", "small", "mid", "boundary", "blocks", "overfile", "varint"}
@@ -104,7 +105,7 @@ var valClasses = []string{"empty", "tiny", "small", "mid", "boundary", "blocks",
 var varintValLens = []int{63, 64, 65, 8191, 8192, 8193, blockSz - 7, 2*blockSz - 14, 1048575, 1048576}
 
 func newSwarm(rng *vrt.Rand, ops []string, maxSteps int) *Swarm {
-	s := &Swarm{W: map[string]int{}, ovh: 12, Bulk: bulkShare}
+	s := &Swarm{W: map[string]int{}, ovh: 12, Bulk: bulkShare, ZeroTail: zeroTailRun}
 	s.Keys = genKeys(rng, rng.Range(1, 8))
 	for _, o := range ops {
 		if rng.Chance(0.8) {
@@ -193,7 +194,11 @@ func (s *Swarm) val(rng *vrt.Rand, r *Runner, keyLen int) *Val {
 	if n < 0 {
 		n = 0
 	}
-	return &Val{Len: n, Tag: s.nextTag()}
+	v := &Val{Len: n, Tag: s.nextTag()}
+	if s.ZeroTail && n > 16 && rng.Chance(0.4) {
+		v.Z = rng.Range(1, 3)
+	}
+	return v
 }
 
 // learn observes how much the active file grew for the last plain put, to estimate per-record overhead.
@@ -1572,5 +1577,30 @@ var bulkShare int
 func init() {
 	for _, p := range []string{"C01", "C02", "C06", "C10", "C14", "C17", "C18", "C20"} {
 		withBulk(p, 0.04)
+	}
+}
+
+// withZeroTail lets a share of a property's sequential runs use values that end in zero bytes (little-endian
+// counters, zero-padded fields). Such runs use standard I/O for every Open: the model of an open memory-mapped file is
+// recovered by diffing against zeros and cannot see a trailing zero (seeded change S93: a copy routine that trims them).
+func withZeroTail(prop string, share float64) {
+	gen := generators[prop]
+	generators[prop] = func(c *Case, rng *vrt.Rand, tier string) func(r *Runner, i int) *Op {
+		zeroTailRun = rng.Chance(share)
+		defer func() { zeroTailRun = false }()
+		g := gen(c, rng, tier)
+		if zeroTailRun && c.Arm == "seq" {
+			c.ZeroTail = true
+			c.Cfg.IO = 0
+		}
+		return g
+	}
+}
+
+var zeroTailRun bool
+
+func init() {
+	for _, p := range []string{"C01", "C02", "C06", "C10", "C17", "C18", "C20"} {
+		withZeroTail(p, 0.06)
 	}
 }
